@@ -108,11 +108,19 @@ func c27ShowEntries(es []*auditlog.Entry) string {
 	}
 	return strings.Join(out, ";")
 }
+var c27Locs = []*time.Location{time.UTC, time.FixedZone("UTC+02:00", 7200), time.FixedZone("UTC-09:30", -34200), time.FixedZone("UTC+05:45", 20700)}
+
 func c27ParseEntry(t string) *auditlog.Entry {
 	f := strings.Split(t, ",")
 	ver, _ := strconv.Atoi(f[0])
 	ts, _ := strconv.ParseInt(f[1], 10, 64)
-	e := &auditlog.Entry{Version: uint16(ver), Timestamp: time.Unix(0, ts), Type: auditlog.EntryType(c27Untok(f[2])),
+	// the Location of a time.Time is not part of the entry token: vary it with the instant, so that every consumer of
+	// Entry.Timestamp is exercised with non-UTC Locations (k == 4: time.Local)
+	stamp := time.Unix(0, ts)
+	if k := uint64(ts) % 5; k < 4 {
+		stamp = stamp.In(c27Locs[k])
+	}
+	e := &auditlog.Entry{Version: uint16(ver), Timestamp: stamp, Type: auditlog.EntryType(c27Untok(f[2])),
 		PreviousHash: c27Untok(f[3]), Hash: c27Untok(f[4]), SignatureEd25519: c27Untok(f[5])}
 	switch f[6] {
 	case "G":
